@@ -141,6 +141,10 @@ func ConvertSdcpbNumberToUint64(mm *sdcpb.Number) (uint64, error) {
 }
 
 func ConvertSdcpbNumberToInt64(mm *sdcpb.Number) (int64, error) {
+	// the magnitude of the smallest int64 exceeds MaxInt64 by one
+	if mm.Negative && mm.Value == uint64(math.MaxInt64)+1 {
+		return math.MinInt64, nil
+	}
 	if mm.Value > math.MaxInt64 {
 		return 0, fmt.Errorf("error converting %d to int64 overflow", mm.Value)
 	}
